@@ -270,7 +270,10 @@ impl XDiscreteDistribution {
 
 impl XNativeValue for XDiscreteDistribution {
     fn dyn_size(&self) -> usize {
-        0
+        match self {
+            Self::Custom(entries) => entries.len() * size_of::<(LazyBigint, f64)>(),
+            _ => 0,
+        }
     }
 }
 
